@@ -63,7 +63,11 @@ add("C12", "fault_enumeration",
     "interfere (the shortfall against the reference fixpoint is recorded only). Items returned "
     "twice are not C12 and only recorded; an error returned by next() is not a loss (the drain "
     "backs off and continues). Part B quiescence is decided on what the store saw (every input "
-    "committed by process, current next got 'none' and parked).",
+    "committed by process, current next got 'none' and parked). A `next` that is Pending with no "
+    "store call in flight, without the store having answered 'none' and without any wake-up, is "
+    "parked on the orderer's in-memory state: the ready queue is then read directly and a non-empty "
+    "queue is a violation (decided on state). Every hand-polled call and every case has a 30 s "
+    "wall-clock bound whose firing is inconclusive.",
     quick=[st("vh-stream")],
     thorough=[st("vh-stream")],
     design_ref="DESIGN.md §1 C12")
